@@ -112,6 +112,9 @@ DEPENDENT_GROUPS = [
      "expr.factor_intermediates(t2_2_once,types=t_amplitude)",
      "expr.factor_intermediates(t2_2_once,types=[misc,t_amplitude])",
      "expr.factor_intermediates(t2_2_once,types=misc)"],
+    ["expr.factor_intermediates(t1_2_once,names=[p0_2_oo,t1_2])",
+     "expr.factor_intermediates(t1_2_once,names=[t2_1,t1_2])",
+     "expr.factor_intermediates(t1_2_once,names=[p0_2_vv,t1_2])"],
     ["isr.mp.pp.precursor(2,ph,bra,ia)", "isr.mp.pp.precursor(2,ph,ket,ia)",
      "isr.mp.pp.overlap_precursor(2,ph,ph,ia,jb)"],
     ["isr.mp.pp.s_root(1,ph,ph,ia,jb)", "isr.mp.pp.intermediate_state(1,ph,ket,ia)",
